@@ -1,10 +1,11 @@
 import argparse, json, os, sys, time
 from common import *
-import props, stages, corr_rt, corr_cc
+import props, stages, corr_rt, corr_cc, corr_it
 
 CORRS = {
     "k1": corr_rt.k1,
     "cc": corr_cc.cc,
+    "k3": corr_it.k3,
 }
 
 
@@ -77,7 +78,7 @@ def main(argv):
     def impl_level(name, d):
         if name == "k1":
             return bool(d.get("impl_vs_spec", True))
-        if name in ("cc:k6a", "cc:k6d"):
+        if name in ("cc:k6a", "cc:k6d", "k3:native"):
             return True
         if name == "cc:k6e":
             return "Buildable=True" in d.get("model", "") or "Buildable=true" in d.get("model", "")
